@@ -67,15 +67,13 @@ def run_reader(scn, data, validate=1, kind=None, opts=None):
         decider = RngDecider(R.random.Random(sch["seed"]), {"seg": "full" if kind == "serial" else sch["seg"]})
     budget = 8 * len(data) + 600
     st = W.Stream(kind, data, decider, budget, rawbuf=scn.get("rawbuf", 64))
-    kw, calls = W.make_handler(o.get("handler"))
+    kwf, calls = W.make_handler(o.get("handler"))
     try:
         def make(ds):
-            return RTCMReader(ds, validate=validate, quitonerror=o["quitonerror"], labelmsm=o.get("labelmsm", 1), parsed=o.get("parsed", True), bufsize=scn.get("bufsize", 4096), **kw)
+            return RTCMReader(ds, validate=validate, quitonerror=o["quitonerror"], labelmsm=o.get("labelmsm", 1), parsed=o.get("parsed", True), bufsize=scn.get("bufsize", 4096), **kwf())
 
-        rd = make(st.obj)
         ho = (scn["handover"], make) if scn.get("handover") is not None else None
-        events = W.drive(rd, st, scn.get("driver", "iterate"), 0, handover=ho)
-        del rd
+        events = W.drive(lambda: make(st.obj), st, scn.get("driver", "iterate"), 0, handover=ho)
     except SimBudgetExceeded as e:
         return None, st, calls, str(e)
     return events, st, calls, None
